@@ -680,8 +680,10 @@ class EngineRun:
             if op.get("reuse_ctx") and prev is not None:
                 # a driver that keeps one context object and refreshes its public fields each turn:
                 # whatever the engine stashed on it last turn is still there
+                # (everything the engine put there - private stashes, now_iso, slice_idx, slice_budgets ... - the driver
+                # refreshes only what it sets itself: turn id, agent, configuration, clock)
                 for pk, pv in list(vars(prev).items()):
-                    if pk.startswith("_") and pk != "_dry_run_until_t4" and pk not in vars(ctx):
+                    if pk != "_dry_run_until_t4" and pk not in vars(ctx):
                         setattr(ctx, pk, pv)
             for extra_k, extra_v in (op.get("ctx") or {}).items():
                 setattr(ctx, extra_k, extra_v)
